@@ -43,7 +43,7 @@ InitTg == [st |-> "run",        \* unstarted | run (Starting, Running, Upgrading
            nfail |-> 0, nbusy |-> 0,
            freeAt |-> 0, nstall |-> 0]   \* end of the latest executor stall
 InitTm == [pc |-> "none",       \* none | new | sleep | done | aborted
-           kind |-> "after", p |-> 0, created |-> 0, started |-> 0, due |-> 0, k |-> 0, res |-> "none", nenq |-> 0, nh |-> 0,
+           kind |-> "after", p |-> 0, rp |-> 0, created |-> 0, started |-> 0, due |-> 0, k |-> 0, res |-> "none", nenq |-> 0, nh |-> 0,
            \* monitors
            early |-> FALSE, inexact |-> FALSE, lateStart |-> FALSE, deadDeliv |-> FALSE, badOrder |-> FALSE,
            diedUnstarted |-> FALSE]   \* an interval task ended because its target had not started yet
@@ -124,10 +124,13 @@ TgCleanup ==
 
 -----------------------------------------------------------------------------
 (* Timers *)
-Create(t, kd, p) ==
+\* p: the period in whole milliseconds the timer wheel works with (a period with a sub-millisecond part is due at the next
+\* whole millisecond); rp: the millisecond count the documented exit reason shows (Duration::as_millis, rounded down)
+CreateR(t, kd, p, rp) ==
   /\ tm[t].pc = "none"
-  /\ tm' = [tm EXCEPT ![t] = [InitTm EXCEPT !.pc = "new", !.kind = kd, !.p = p, !.created = now]]
+  /\ tm' = [tm EXCEPT ![t] = [InitTm EXCEPT !.pc = "new", !.kind = kd, !.p = p, !.rp = rp, !.created = now]]
   /\ UNCHANGED <<now, tg>>
+Create(t, kd, p) == CreateR(t, kd, p, p)
 
 \* first poll of the timer task
 Start(t) ==
@@ -164,7 +167,7 @@ Fire(t) ==
                /\ tg' = IF Accepts THEN [tg EXCEPT !.mq = Append(@, msg)] ELSE tg
           [] r.kind = "exit" ->
                /\ tm' = [tm EXCEPT ![t] = [r EXCEPT !.pc = "done"]]
-               /\ Stop(ExitReason(r.p))
+               /\ Stop(ExitReason(r.rp))
           [] r.kind = "kill" ->
                /\ tm' = [tm EXCEPT ![t] = [r EXCEPT !.pc = "done"]]
                /\ Kill
@@ -210,7 +213,7 @@ IntervalEnds == VirtualClock => \A t \in Timers :
     (tm[t].due <= tg.leftAt + tm[t].p /\ (now <= tg.leftAt + tm[t].p \/ now = tg.freeAt))
 \* exit_after / kill_after: documented reasons
 Reasons == /\ tg.sig = "taken" => tg.exitR = "killed"
-           /\ \A t \in Timers : (tm[t].pc = "done" /\ tm[t].kind = "exit" /\ tg.exitR = ExitReason(tm[t].p)) => ~tm[t].early
+           /\ \A t \in Timers : (tm[t].pc = "done" /\ tm[t].kind = "exit" /\ tg.exitR = ExitReason(tm[t].rp)) => ~tm[t].early
 \* an interval never ends merely because its target has not started yet (holds without the deviation; with it, the flag marks
 \* exactly the runs that need it)
 IntervalSurvivesStart == \A t \in Timers : tm[t].diedUnstarted => UnstartedKillsInterval
